@@ -54,6 +54,21 @@ type sep struct {
 	// StartMessageRead..EndMessageRead; bytes handed to WriteMessage and not yet put on the wire
 	inRead      bool
 	bufferedOut int
+	// the session constants (key, frozen digests) of the blob this endpoint's stream was last rebuilt
+	// from: what every later export of the session must carry again (C15 oracle)
+	imported *blobFields
+}
+
+// scrub overwrites a buffer the harness handed to (or got from) the library, as a careful caller does
+// with memory that held a raw key: zeros first, then a pattern. A stream that kept a reference to the
+// caller's buffer instead of its own copy now holds garbage.
+func scrub(b []byte) {
+	for i := range b {
+		b[i] = 0
+	}
+	for i := range b {
+		b[i] = byte(i*131 + 0x5b)
+	}
 }
 
 // fakeAddr is the remote address of a harness connection.
@@ -257,7 +272,9 @@ func (e *sep) crypting() bool { return e.key != nil && e.s.IsEncrypted() }
 
 func (w *sworld) key(n string, id int) {
 	e := w.ep(n)
-	err := e.s.SetSymmetricKey(keyBytes(id))
+	kbuf := keyBytes(id)
+	err := e.s.SetSymmetricKey(kbuf)
+	scrub(kbuf) // the caller's key buffer is the caller's: wiped after the call
 	if err != nil {
 		w.log(fmt.Sprintf("key %s %d 0 -", n, id), "err "+errClass(err))
 		return
@@ -668,11 +685,15 @@ func buildBlob(f *blobFields) []byte {
 
 func (w *sworld) export(n string) ([]byte, error) {
 	e := w.ep(n)
-	blob, err := e.s.ExportCryptoState()
+	ret, err := e.s.ExportCryptoState()
 	if err != nil {
 		w.log("export "+n, "err "+errClass(err))
 		return nil, err
 	}
+	// the returned slice is the caller's from here on: the harness keeps a copy and wipes the original,
+	// as a process does after passing the blob on (the exporting stream may live on)
+	blob := append([]byte{}, ret...)
+	scrub(ret)
 	f, perr := parseBlob(blob)
 	if perr != nil {
 		w.log("export "+n, "ok UNPARSEABLE")
@@ -698,15 +719,20 @@ func (w *sworld) importBlobAround(n string, blob []byte, remote string) error {
 		e.c.Remote = fakeAddr{"unix", remote}
 		op += " " + hexOrDash([]byte("<"+remote+">"))
 	}
-	s, err := stream.NewStreamWithCryptoState(e.c, blob)
+	// the transfer buffer is the caller's: it is wiped and reused as soon as the import has returned
+	buf := append([]byte{}, blob...)
+	s, err := stream.NewStreamWithCryptoState(e.c, buf)
+	scrub(buf)
 	if err != nil {
 		w.log(op, "err "+errClass(err))
 		return err
 	}
 	e.s = s
+	e.imported = nil
 	e.inRead, e.bufferedOut = false, 0
 	e.finalized = true // an imported stream never feeds digests that matter again (see model)
 	if f, perr := parseBlob(blob); perr == nil {
+		e.imported = &blobFields{key: append([]byte{}, f.key...), fs: append([]byte{}, f.fs...), fr: append([]byte{}, f.fr...)}
 		e.key = append([]byte{}, f.key...)
 		e.keyID = int(binary.BigEndian.Uint32(f.key[28:]))
 		d, _ := refcodec.NewDir(e.key, [32]byte{}, [32]byte{})
